@@ -224,3 +224,33 @@ Proof.
   apply Forall_forall. intros p Hp. apply in_map_iff in Hp as [r [<- Hr]]. apply seq_chars_range.
   pose proof (compact_runs_ok l Hn) as Hok. rewrite Forall_forall in Hok. apply Hok. exact Hr.
 Qed.
+
+(* whatever order (and however often) the keys are handed over, what comes back is their set, ascending *)
+Lemma in_zins x l a : In a (zins x l) <-> a = x \/ In a l.
+Proof.
+  induction l as [|y l IH]; cbn [zins]; [cbn; intuition|].
+  destruct (x <=? y); cbn [In]; [intuition|]. rewrite IH. intuition.
+Qed.
+Lemma in_zsort l a : In a (zsort l) <-> In a l.
+Proof.
+  induction l as [|x l IH]; [reflexivity|]. unfold zsort in *. cbn [fold_right]. rewrite in_zins, IH. cbn [In]. intuition.
+Qed.
+Lemma zsort_nonneg l : Forall (fun x => 0 <= x) l -> Forall (fun x => 0 <= x) (zsort l).
+Proof. rewrite !Forall_forall. intros H x Hx. apply H. apply in_zsort. exact Hx. Qed.
+
+Theorem expand_compact_text_any l : Forall (fun x => 0 <= x) l ->
+  expand_text (compact_text l) = Some (sorted_set l).
+Proof.
+  intros Hn. unfold compact_text.
+  assert (Hset : sorted_set (zsort l) = sorted_set l).
+  { apply sorted_ext; [apply sorted_set_sorted|apply sorted_set_sorted|]. intros a. rewrite !in_sorted_set. apply in_zsort. }
+  pose proof (zsort_nonneg l Hn) as Hn'. destruct (zsort l) as [|x l'] eqn:E.
+  - destruct l as [|y l]; [reflexivity|]. exfalso. assert (In y []) by (rewrite <- E; apply in_zsort; left; reflexivity). contradiction.
+  - rewrite <- Hset.
+    pose proof (compact_runs_ok (x :: l') Hn') as Hok. pose proof (compact_runs_nonempty x l') as Hne.
+    unfold expand_text. rewrite join_not_blank by assumption. rewrite split1_join.
+    + rewrite collect_runs by exact Hok. rewrite flat_compact. reflexivity.
+    + destruct (compact_runs (x :: l')); [contradiction|discriminate].
+    + apply Forall_forall. intros p Hp. apply in_map_iff in Hp as [r [<- Hr]].
+      apply as_range_no_comma. rewrite Forall_forall in Hok. apply Hok. exact Hr.
+Qed.
